@@ -128,9 +128,33 @@ def gen_trial(meta, rng, nthreads, maxops=7, tiny=False):
         leftovers_exp += own_exps + list(own_mons.values())
         leftovers_obj += [o for o, k in own_objs]
         threads.append(ops)
+    # a shared watched object whose requirement is released by one thread while another thread destroys the object
+    # (two different objects: both operations are legal concurrently)
+    shared_w = None
+    if rng.random() < (0.7 if tiny else 0.45):
+        nseq = rng.choice([0, 0, 1])
+        st = [x for x in sites if x['cls'] == 'P' and x['nseq'] == nseq][0]
+        pre.append(('obj', 5, 'P'))
+        pre.append(('mon', 15, st['site'], 5) + ((3,) if nseq else ()))
+        shared_w = [True, True]   # object alive, monitor alive (as far as the program text goes)
+        ta, tb = rng.randrange(nthreads), rng.randrange(nthreads)
+        if rng.random() < 0.85:
+            ops = threads[ta]
+            ops.insert(rng.randint(0, len(ops)), ('rmobj', 5))
+            shared_w[0] = False
+        if rng.random() < 0.85:
+            ops = threads[tb]
+            ops.insert(rng.randint(0, len(ops)), ('rmexp', 15))
+            shared_w[1] = False
     post = []
     for e in leftovers_exp + longlived:
         post.append(('qexp', e))
+    if shared_w:
+        if shared_w[1]:
+            post.append(('qexp', 15))
+            post.append(('rmexp', 15))
+        if shared_w[0]:
+            post.append(('rmobj', 5))
     post += [('qseq', 3), ('qseq', 4)]
     for e in leftovers_exp:
         post.append(('rmexp', e))
